@@ -1,6 +1,7 @@
 //! Executors for the mpmc channel (model: coq/Model/Mpmc.v): borrowed GenericChannel with
 //! ArrayBuf / FixedHeapBuf / GrowingHeapBuf, and the shared sender/receiver flavour.
 use crate::core::*;
+use crate::lib_or_panic;
 use futures_core::future::FusedFuture;
 use futures_core::stream::{FusedStream, Stream};
 use futures_intrusive::buffer::{ArrayBuf, FixedHeapBuf, GrowingHeapBuf, RingBuf};
@@ -216,7 +217,7 @@ impl<M: RawMutex + 'static, A: RingBuf<Item = Val> + 'static> Exec for ChanExec<
         match op {
             [0, f, v] if (*f as usize) < self.sf.len() && !self.sf.alive(*f as usize) => {
                 let val = Val::new(*v);
-                let fut = lib(|| ch.send(val)).unwrap();
+                let fut = lib_or_panic!(o, || ch.send(val));
                 self.sf.put(*f as usize, fut);
                 o.r = vec![R_UNIT];
             }
@@ -226,7 +227,7 @@ impl<M: RawMutex + 'static, A: RingBuf<Item = Val> + 'static> Exec for ChanExec<
                 o.r = vec![if self.sf.drop_slot(*f as usize) { R_UNIT } else { R_PANIC }]
             }
             [4, f] if (*f as usize) < self.rf.len() && !self.rf.alive(*f as usize) => {
-                let fut = lib(|| ch.receive()).unwrap();
+                let fut = lib_or_panic!(o, || ch.receive());
                 self.rf.put(*f as usize, fut);
                 o.r = vec![R_UNIT];
             }
@@ -241,7 +242,7 @@ impl<M: RawMutex + 'static, A: RingBuf<Item = Val> + 'static> Exec for ChanExec<
             [8] => o.r = try_recv_res(lib(|| ch.try_receive())),
             [9] => o.r = vec![close_res(lib(|| ch.close()))],
             [30, k] if (*k as usize) < self.streams.len() && !self.streams.alive(*k as usize) => {
-                let st = lib(|| ch.stream()).unwrap();
+                let st = lib_or_panic!(o, || ch.stream());
                 self.streams.put(*k as usize, st);
                 o.r = vec![R_UNIT];
             }
@@ -341,7 +342,7 @@ impl<M: RawMutex + 'static, A: RingBuf<Item = Val> + 'static> Exec for SharedCha
             [0, f, v] if (*f as usize) < self.sf.len() && !self.sf.alive(*f as usize) && !self.senders.is_empty() => {
                 let val = Val::new(*v);
                 let s = &self.senders[0];
-                let fut = lib(|| s.send(val)).unwrap();
+                let fut = lib_or_panic!(o, || s.send(val));
                 self.sf.put(*f as usize, fut);
                 o.r = vec![R_UNIT];
             }
@@ -352,7 +353,7 @@ impl<M: RawMutex + 'static, A: RingBuf<Item = Val> + 'static> Exec for SharedCha
             }
             [4, f] if (*f as usize) < self.rf.len() && !self.rf.alive(*f as usize) && !self.receivers.is_empty() => {
                 let r = &self.receivers[0];
-                let fut = lib(|| r.receive()).unwrap();
+                let fut = lib_or_panic!(o, || r.receive());
                 self.rf.put(*f as usize, fut);
                 o.r = vec![R_UNIT];
             }
@@ -384,13 +385,13 @@ impl<M: RawMutex + 'static, A: RingBuf<Item = Val> + 'static> Exec for SharedCha
             }
             [10] if !self.senders.is_empty() => {
                 let s = &self.senders[0];
-                let c = lib(|| s.clone()).unwrap();
+                let c = lib_or_panic!(o, || s.clone());
                 self.senders.push(c);
                 o.r = vec![R_UNIT];
             }
             [13] if !self.receivers.is_empty() => {
                 let r = &self.receivers[0];
-                let c = lib(|| r.clone()).unwrap();
+                let c = lib_or_panic!(o, || r.clone());
                 self.receivers.push(c);
                 o.r = vec![R_UNIT];
             }
@@ -411,7 +412,7 @@ impl<M: RawMutex + 'static, A: RingBuf<Item = Val> + 'static> Exec for SharedCha
             }
             [30, k] if (*k as usize) < self.streams.len() && !self.streams.alive(*k as usize) && !self.receivers.is_empty() => {
                 let r = self.receivers.pop().unwrap();
-                let st = lib(move || r.into_stream()).unwrap();
+                let st = lib_or_panic!(o, move || r.into_stream());
                 self.streams.put(*k as usize, st);
                 o.r = vec![R_UNIT];
             }
